@@ -101,6 +101,9 @@ func tokenizeStream(src io.Reader, normalize bool, dict *dictionary, updateDict 
 		// Fill up the buffer with bytes to extract runes from
 		// idx is offset to hold any bytes left over from previous reads
 		n, err := io.ReadFull(src, rbuf[idx:])
+		// end marks the end of the valid bytes in the buffer. Bytes beyond it are
+		// stale content from earlier reads and must not be decoded.
+		end := idx + n
 		if isEOF(err) {
 			// There are no more bytes to read, so we must now consume all bytes in the
 			// buffer.
@@ -110,7 +113,7 @@ func tokenizeStream(src io.Reader, normalize bool, dict *dictionary, updateDict 
 		}
 
 		for idx = 0; idx < tgt; {
-			r, n := utf8.DecodeRune(rbuf[idx:])
+			r, n := utf8.DecodeRune(rbuf[idx:end])
 			idx += n
 
 			if r == '\n' {
